@@ -284,6 +284,19 @@ def flush_loop(prog, rep):
                 e[2][0] == "bin" and e[2][1] == "Sub" and "num_bits" in show(e[2][2]):
             tests.append((bi, e))
     rep.floor(rule, len(tests), 1, "the `remaining bits >= 8` test in compress_impl_unsafe")
+    # the first byte of a symbol is flushed exactly when the code fills the pending byte: num_bits >= 8 - num_output_bits
+    from .common import holds_at, want_relations
+    outs = [(bi, t) for bi, t in b.calls() if (t.get("callee") or "").endswith("::next") and "output" in show(ir.term_operand(bi, t["args"][0]))]
+    inner = set(bi for bi, e in tests)
+    firsts = []
+    for bi, t in outs:
+        rels = holds_at(ir, bi)
+        if any(r[0] != "bool" and "Sub(8," in show(strip_sites(r[2])) for r in rels) and not any(b.dominates(x, bi) for x in inner):
+            firsts.append((bi, t, rels))
+    rep.floor(rule, len(firsts), 1, "the first flush of a symbol in compress_impl_unsafe")
+    for bi, t, rels in firsts:
+        want_relations(rep, rule, "a pending byte is flushed when the code fills it", rels, [("get_node", "Ge", "Sub(8,")], b.loc(t.get("ln")),
+                       "flush when symbol.num_bits >= 8 - num_output_bits")
     # the symbol loop's header: next() on the chained input iterator
     outer = [bi for bi, t in b.calls() if (t.get("callee") or "").endswith("::next") and "Chain" in (t.get("callee") or "")]
     if not outer:
